@@ -665,6 +665,16 @@ theorem C22_minted_accepted (hmac : Hmac) (cfg : Config) (kid ts nonce : Str) (s
   | some c => simp only [hfresh c rfl, Bool.false_eq_true, if_false]
 
 
+/-- a proof the table accepts carries exactly the §9 claims (`verified = "true"`, the configured label, …) -/
+theorem C22_ok_claims (hmac : Hmac) (cfg : Config) (vals : List Str) (now : Int) (cache : Option NonceState)
+    (mono : Int) (c : Claims) (h : (Spec.table hmac cfg vals now cache mono).1 = .ok c) :
+    ∃ label kid, c = Spec.okClaims label kid cfg.origin := by
+  unfold Spec.table at h
+  repeat' split at h
+  all_goals first
+    | (cases h; done)
+    | (simp only [Result.ok.injEq] at h; exact ⟨_, _, h.symm⟩)
+
 /-! ### non-vacuity: concrete runs of the model (a toy HMAC that returns 32 zero bytes, whose base64url is 43 `A`s) -/
 
 def toyHmac : Hmac := fun _ _ => List.replicate 32 0
